@@ -114,11 +114,11 @@ func c15Run(front string, keys []kit.KeySpec, cn C15Conn, cacheOn bool, idx int)
 		}
 	}
 	dial := func() (*net.TCPConn, error) {
-		c, err := net.DialTimeout("tcp", front, 3*time.Second)
+		c, err := kit.DialTCP(front, 3*time.Second)
 		if err != nil {
 			return nil, err
 		}
-		return c.(*net.TCPConn), nil
+		return c, nil
 	}
 	if cn.Kind == "replay_server" && cacheOn && key.SaltSize() >= 20 && cn.Seed%2 == 0 {
 		// the same reflected handshake was already presented once: the second presentation is still a *server* replay
